@@ -168,11 +168,29 @@ CLAIMS["C20"] = dict(
     technique="static analysis: AST rules on result construction and flag assignments",
     design="§4 C20", engine="E11")
 
+CLAIMS["C06"] = dict(
+    category="other",
+    text="The property is geometric and its distance clauses are NOT decided. Decided statically are only the plumbing clauses that are necessary "
+         "conditions of 'orientation of the input (and ReverseSolution) is preserved' and '|delta| < 0.5 leaves the region unchanged': the "
+         "clean-up union's 16-cell table (fill rule Negative iff paths reversed, output target, ReverseSolution(reverse_solution_ != "
+         "paths_reversed), PreserveCollinear), the insignificant-delta shortcut, the sign of the group delta for every end type, and the "
+         "definition of a reversed group; all extracted by interpreting the AST over the complete finite domain of the flags.",
+    note="Round / miter / square / bevel join geometry, tolerance bands, shrinking beyond the inradius: NOT decided.",
+    technique="static analysis: interpreted decision tables over complete finite flag domains",
+    design="§4 C06, §9", engine="E12")
+CLAIMS["C19"] = dict(
+    category="other",
+    text="The swept-region equality is geometric and NOT decided. Decided statically are structural necessary conditions of detail::Minkowski and "
+         "its four wrappers: empty input returns empty before anything is indexed; sum adds / difference subtracts the pattern point; the path's "
+         "closing edge is swept iff isClosed; quad corners; every quad is made positively oriented before the NonZero union; wrappers pass the "
+         "right flags; PathD overloads scale in and out (dimensional analysis).",
+    note="That the union of the parallelograms equals the swept region within 2 units is NOT decided.",
+    technique="static analysis: AST rules and small interpreted tables",
+    design="§4 C19, §9", engine="E12")
+
 NOT_APPLICABLE = {
     "C02": "exactness on degenerate rectilinear input is a runtime interplay of horizontal joins; no structural clause is a necessary condition (DESIGN §4)",
-    "C06": "every clause is a distance/region statement over all polygons and deltas; nothing is visible in the shape of the code (DESIGN §4)",
     "C09": "lengths and positions of cut pieces are numeric; the per-path scratch hygiene is decided under C12 (DESIGN §4)",
-    "C19": "swept-region equality is geometric; PathD argument validation is decided under C11 (DESIGN §4)",
 }
 
 PENDING = {}
@@ -226,6 +244,8 @@ def main():
              "kind_free_text": "must-precede, option plumbing, pipeline identity, effect confinement"},
             {"name": "E11", "path": "/verif/vlib/engines/e11_paths.py", "serves_properties": ["C20"],
              "kind_free_text": "subsequence-by-construction and monotone flags for the path utilities"},
+            {"name": "E12", "path": "/verif/vlib/engines/e12_plumbing.py", "serves_properties": ["C06", "C19"],
+             "kind_free_text": "orientation / shortcut plumbing of ClipperOffset; structural clauses of Minkowski"},
             {"name": "E6", "path": "/verif/vlib/engines/e6_siblings.py", "serves_properties": ["C15", "C16", "C05"],
              "kind_free_text": "sibling identity: USINGZ vs plain per function, 64 vs D builders"},
             {"name": "E7", "path": "/verif/vlib/engines/e7_zaccount.py", "serves_properties": ["C15"],
